@@ -30,6 +30,10 @@ _public_ void *m_mem_new(size_t size, m_ref_dtor dtor) {
      * whatever the requested size is.
      */
     const size_t hdr_size = sizeof(mem_header_t);
+    if (size > SIZE_MAX - hdr_size - 2 * alignof(max_align_t)) {
+        /* header + size does not fit a size_t: no such block */
+        return NULL;
+    }
     const size_t total_size = hdr_size + size;
     uint8_t align_shift = ALIGN_UP(hdr_size) - hdr_size;
     if (align_shift == 0) {
